@@ -86,7 +86,15 @@ def coerce(kind, raw):
 
 
 # README: "<SHORT NAME>_<OPTION>" in upper case; short names of the shipped backends and of the custom test backend
-DOCUMENTED_ENV_PREFIX = {'s3': 'S3', 's3c': 'S3C', 'b2': 'B2', 'vfy': 'VFY', 'local': 'LOCAL'}
+DOCUMENTED_ENV_PREFIX = {'s3': 'S3', 's3c': 'S3C', 'b2': 'B2', 'vfy': 'VFY', 'vfa': 'VFA', 'local': 'LOCAL'}
+
+
+def register_backend(module, short_name):
+    """a further custom backend (module name = what `-r <module>:…` names; short name = what its class declares, the class
+    name when it declares none): README "<SHORT NAME>_<OPTION>" in upper case"""
+    DOCUMENTED_ENV_PREFIX[module] = short_name.upper()
+
+
 DOCUMENTED_MAIN_ENV = {'repository': 'REPLICAT_REPOSITORY', 'password': 'REPLICAT_PASSWORD'}
 
 
